@@ -49,7 +49,8 @@ class Base(common.Harness):
         self.F, self.Hh, self.M, self.regex = F, Hh, M, regex
         self.W = params["W"]
         self.n = z3.Int("n")
-        self.eng.assume(z3.And(self.n >= 0, self.n <= MAXN))
+        # `long`: the text may exceed MAX_MATCH_CHARS, so the truncation branch of match_on_tokens is explored
+        self.eng.assume(z3.And(self.n >= 0, self.n <= (900 if params.get("long") else MAXN)))
         it = self.interp
         it.stubs[regex.search] = self.stub_search
         import re as _re
@@ -645,6 +646,13 @@ def corpus():
             for post in POST:
                 for tail in TAIL:
                     yield pre + cite + post + tail
+    # scan windows around the 300-character limit: plain filler (no stop words, no citations) of every length
+    # 280..320 before a short / supra / pre-cited citation
+    unit = "quick brown foxes jump over lazy dogs and "
+    for L in range(280, 321):
+        filler = (unit * 10)[:L]
+        for tail in ("Jones Smith, supra, at 5.", "Jones Smith, 515 U.S. at 241.", "Nobelman Smith at 332, 1 U.S. 1 (1999)."):
+            yield filler + tail
     for cite in db_short_examples():
         for pre in ("", "See ", "Adarand, "):
             for post in POST + [" and the cases cited there.", ", and 5 (x)"]:
@@ -733,6 +741,14 @@ def explore_parts(rep, pid, parts=None):
             tot[k] = tot.get(k, 0) + v
         if agg["paths"] == 0 and not agg["errors"]:
             rep.inconc(f"{part}: no feasible path")
+    if pid in ("C17", "C02") and parts is None:
+        # the same writers with scan windows that reach the 300-character limit (truncation branch)
+        for part in (("pre", "short", "id", "journal") if quick else ("pre", "short", "supra", "id", "journal")):
+            agg = common.explore_split("vf.harness.c02", {"part": part, "W": 1 if part == "short" and quick else 2, "long": True}, depth=4, timeout=7200)
+            rep.merge_explore(part + "_long_window", agg)
+            findings += [(part, f) for f in agg["findings"]]
+            for k, v in agg["verdicts"].items():
+                tot[k] = tot.get(k, 0) + v
     if pid in ("C17", "C02"):
         agg = common.explore_split("vf.harness.c02", {"part": "paren", "N": 5 if quick else 7}, depth=4)
         rep.merge_explore("process_parenthetical_lemma", agg)
@@ -773,7 +789,8 @@ def settle(rep, pid, findings, concrete_prefixes):
 def common_notes(rep, W):
     rep.bounds.append(f"window of <= {W} document pieces on the scanned side of the citation token (piece kinds {PIECE_KINDS}), text length n <= {MAXN} so the 300-character scan limit is not reached; offsets symbolic")
     rep.assumptions.append("plain words contain no line break (every newline is a ParagraphToken, C12), so `$` in a backward scan means the end of the scanned text")
-    rep.outside += ["scan windows reaching MAX_MATCH_CHARS (300) or BACKWARD_SEEK (28 words)", "what the regex engines capture beyond the contract (span inside subject, anchors, AST-derived group facts): exact captures are decided only in C01's short-context clause", "markup mode offsets (C19)"]
+    rep.bounds.append("additionally pre/short/supra/id/journal with texts up to 900 characters, so that the 300-character truncation of match_on_tokens is explored (window of <= 2 pieces)")
+    rep.outside += ["BACKWARD_SEEK (28 words) being reached; the 300-character truncation for the writers other than pre/short/supra/id/journal", "what the regex engines capture beyond the contract (span inside subject, anchors, AST-derived group facts): exact captures are decided only in C01's short-context clause", "markup mode offsets (C19)"]
     rep.stubs += [
         "regex.search on document text: None or a match inside the subject; ^/$ of match_on_tokens pin start/end; each named group None or a slice of the match; facts read off the pattern AST (group starts at match start, group width bounds) are added",
         "process_parenthetical: None / argument / proper prefix (proved by the lemma harness on <= 5..7 symbolic characters)",
